@@ -3,6 +3,7 @@ package main
 import (
 	"fmt"
 	"os"
+	"strconv"
 	"strings"
 	"time"
 
@@ -320,8 +321,16 @@ func init() {
 		Rule:  "real Stream() against the simulated master: every stop cause {cancel, EOF, ERR, close, RST, short packet, out-of-sequence packet, handler error, mapper error/mismatch, unsupported / invalid event, connection refused / handshake error / checksum-query error / reset after the checksum query / dump request that cannot be written (max_allowed_packet)} x stop point (every packet index sampled) x reader state at the stop (waiting for the network: master silent; holding an event: handler slow or blocked with the master ahead) x handler {fast, slow, blocked-at-stop}; long backlogs (100-180 packets pending when the parser stops). Observed: Stream returns within the deadline, then within the deadline the master sees the socket closed, no library-started goroutine remains (runtime.Stack), Error() and a second Error() return, the handler is never entered twice at once nor after Stream returned. Non-trivial: every scenario",
 		Extra: extraC05})
 	register(&Property{ID: "C06",
-		Rule:  "real Stream() against the simulated master: stop causes as in C04 x stop points x pacing; ERR codes/messages arbitrary (incl. '#'-prefixed SQL state); decode failures at event level (unsupported / truncated-body events, a truncated TABLE_MAP for an id already announced) and at value level (ENUM of an unexpected pack size in the before / after / both images); observed (Stream result, Error() result): handler/decode/lookup failures give a non-nil Stream error; with a nil Stream result Error() may be nil only for cancel / EOF, must carry the master's message for ERR and a transport error for close / RST / short / out-of-sequence; late cancel after an ERR must not hide it; plus the reader goroutine over a scripted connection for an ERR packet of every error number 1000..2100 and boundary numbers (all 65536 in thorough): the published reason carries the message and is neither the EOF marker nor a cancellation. Non-trivial: every scenario",
-		Extra: func(c *Collector, r *RNG, tier string) { extraC06(c, r, tier); errSweep(c, r, tier) }})
+		Rule: "real Stream() against the simulated master: stop causes as in C04 x stop points x pacing; ERR codes/messages arbitrary (incl. '#'-prefixed SQL state); decode failures at event level (unsupported / truncated-body events, a truncated TABLE_MAP for an id already announced) and at value level (ENUM of an unexpected pack size in the before / after / both images); observed (Stream result, Error() result): handler/decode/lookup failures give a non-nil Stream error; with a nil Stream result Error() may be nil only for cancel / EOF, must carry the master's message for ERR and a transport error for close / RST / short / out-of-sequence; late cancel after an ERR must not hide it; plus the reader goroutine over a scripted connection for an ERR packet of every error number 1000..2100 and boundary numbers (all 65536 in thorough): the published reason carries the message and is neither the EOF marker nor a cancellation; a table re-announced with fewer / more columns followed by its rows (the held description no longer fits: must be an error). Non-trivial: every scenario",
+		Extra: func(c *Collector, r *RNG, tier string) {
+			extraC06(c, r, tier)
+			errSweep(c, r, tier)
+			n := 40
+			if tier == "thorough" {
+				n = 800
+			}
+			runCases(c, theDriver, countRedefCases(r, n, "decode-failure-not-reported"))
+		}})
 	register(&Property{ID: "C07",
 		Rule:  "real Stream() attempts with server ids {1, 2^31-1, 2^31, 2^32-1, random}, file names of 0..255 bytes incl. empty, path-like, dotted, blank, NUL, quoted, non-UTF-8 and random-byte names, offsets {4, 2^32-1, 2^31, random}, sequences of up to 4 attempts on one streamer, some refused before the dump, some ending only after the format description was received, the position moved by the caller between attempts; attempts that deliver some transactions and then fail in the handler, followed by an attempt that must ask for the end label of the last accepted transaction; the master decodes the COM_QUERY and COM_BINLOG_DUMP it received. Non-trivial: every scenario",
 		Extra: extraC07})
@@ -491,6 +500,31 @@ func extraC05(col *Collector, r *RNG, tier string) {
 			fmt.Fprintf(os.Stderr, "C05 %s -> %s queries=%d dumps=%d\n", desc, impl, len(res.queries), len(res.dumps))
 		}
 		col.AddScenario(strings.SplitN(desc, ":", 2)[0], desc+" # "+h.line(posStr(firstFile, 4)), true, ok, corr, note, key+" scenario="+desc, impl, model)
+	}
+	// the reader goroutine and the parser / handler run side by side: what the reader hands over must not be memory it
+	// goes on writing to. Event packets larger than the driver's initial read buffer (4 KiB), the master far ahead, a
+	// slow handler that keeps what it receives: the visible consequence of such sharing (the race itself is for the
+	// thorough tier's race detector) is a delivery that differs from the binlog or changes afterwards.
+	for _, size := range []int{5000, 9000, 20000} {
+		h := aliasHistory(r, allCfgs[r.Intn(len(allCfgs))], size)
+		ans, err := theDriver.Ask(h.line(posStr(firstFile, 4)))
+		if err != nil {
+			continue
+		}
+		f0 := fields(ans)
+		s, mp := newStreamer(m, h, 8, firstFile, 4)
+		opts := defaultOpts()
+		opts.deep = true
+		opts.handlerDelay = 2 * time.Millisecond
+		res := runAttempt(s, m, h, mp, opts)
+		ok, note, key := true, "", ""
+		if got := strings.Join(res.calls, "&"); got != f0["spec"] {
+			ok, key = false, "reader-shares-memory-with-parser"
+			note = "event packets of about " + strconv.Itoa(size) + " bytes, master ahead of a slow handler: " + firstDiff(res.calls, strings.Split(f0["spec"], "&"), "x#", "y#")
+		} else if !res.snapshotsEqual {
+			ok, key, note = false, "reader-shares-memory-with-parser", res.snapshotNote
+		}
+		col.AddScenario("large-packets-reader-ahead", fmt.Sprintf("packet≈%d # %s", size, clip(h.line(posStr(firstFile, 4)), 300)), true, ok, true, note, key, clip(res.streamRet, 60), "")
 	}
 }
 
@@ -746,6 +780,20 @@ func extraC07(col *Collector, r *RNG, tier string) {
 	// Streamer), with the same server id and flags
 	for i := 0; i < n/2; i++ {
 		h := smallHistory(r, allCfgs[i%len(allCfgs)])
+		if i%2 == 1 { // histories that cross file switches (real ROTATE, or a restart announced by the artificial one only)
+			for {
+				h = genHistory(r, histOpts{maxUnits: 7, maxStmts: 2, maxRows: 2, maxCols: 4, maxTables: 2, files: true, ignorable: true}, allCfgs[i%len(allCfgs)])
+				nc := 0
+				for _, u := range h.units {
+					if u.commits() {
+						nc++
+					}
+				}
+				if nc >= 2 && !h.empty && h.bias == 0 {
+					break
+				}
+			}
+		}
 		line := h.line(posStr(firstFile, 4))
 		ans, err := theDriver.Ask(line)
 		if err != nil {
